@@ -174,6 +174,12 @@ def hypsB (o : BuildOpts) (ps : List Policy) (req : Request) : Bool :=
 def customEntriesDistinctB (o : BuildOpts) (ps : List Policy) : Bool :=
   Decidable.decide ((((ps.filter (·.action == .custom)).flatMap (customEntries o)).map (·.1)).Nodup)
 
+/-- The generated names of one provider's CUSTOM policies never carry another provider's id prefix. -/
+def customIsolatedB (o : BuildOpts) (ps : List Policy) : Bool :=
+  let cps := ps.filter (·.action == .custom)
+  cps.all fun p => (cps.map (·.provider)).all fun pr =>
+    pr == p.provider || (customEntries o p).all fun e => !hasPrefix (extPrefix pr) e.1
+
 def hypsAllB (o : BuildOpts) (ps : List Policy) (req : Request) : Bool :=
   hypsB o ps req && customEntriesDistinctB o ps
 
